@@ -297,6 +297,25 @@ def c13_mutants(rng, nodes, lay):
         q2 = lay.qubits()[:2]
         out.append(("wrong qubit count (rx)", ins(pos(), ("apply", "rx", q2, [("num", "1")])), ("WrongRegNumber", "rx", 2)))
         out.append(("control overlapping target", ins(pos(), ("apply", "cx", [q2[0], q2[0]], [])), ("InvalidControlMask",)))
+        # several controls: a control that meets another control (not the target), in every position, and a whole
+        # register together with one of its own qubits
+        stem = rng.choice(["x", "z", "h", "y"])
+        out.append(("control overlapping another control", ins(pos(), ("apply", "cc" + stem, [q2[0], q2[0], q2[1]], [])), ("InvalidControlMask",)))
+        out.append(("outer control overlapping the target", ins(pos(), ("apply", "cc" + stem, [q2[1], q2[0], q2[1]], [])), ("InvalidControlMask",)))
+        if lay.nq() >= 3:
+            a, b, c = lay.qubits()[:3]
+            out.append(("first and third control equal", ins(pos(), ("apply", "ccc" + stem, [a, b, a, c], [])), ("InvalidControlMask",)))
+            out.append(("control overlapping another control (parametrised)",
+                        ins(pos(), ("apply", "ccrz", [b, b, c], [("num", "0.5")])), ("InvalidControlMask",)))
+            gdef = ("gate", "g3c", ["a", "b", "c"], [], [("apply", "ccx", [("r", "a"), ("r", "b"), ("r", "c")], [])])
+            out.append(("control overlapping another control inside a gate body",
+                        nodes + [gdef, ("apply", "g3c", [a, a, b], [])], ("InvalidControlMask",)))
+        wide = [r_ for r_ in lay.q if r_[1] >= 2]
+        if wide and lay.nq() > wide[0][1]:
+            rn = wide[0][0]
+            t = [x for x in lay.qubits() if x[1] != rn][0]
+            out.append(("register as a control together with one of its qubits",
+                        ins(pos(), ("apply", "cc" + stem, [("r", rn), ("q", rn, 1), t], [])), ("InvalidControlMask",)))
     if qs != cs_ or True:
         other = [c for c in lay.c if c[1] != qs]
         if other:
@@ -638,6 +657,18 @@ def c18_cases(rng, tier):
     sessions.append({"chunks": [base, [fooX, ("apply", "foo", [Q0], []), zzbad], [fooX, ("apply", "foo", [Q0], []), zzbad],
                                 [fooH, ("apply", "foo", [Q0], []), ("apply", "foo", [Q1], []), meas]],
                      "bad": [1, 2], "seed": 9, "rule": "stale definition from a rejected chunk", "position": 3})
+    # a rejected chunk made of declarations only (a header / include-like chunk): the error comes from a later
+    # declaration, the earlier ones of the same chunk must not stay
+    decl0 = [("qreg", "q", 2), ("creg", "c", 2), ("gate", "old", ["a"], [], [("apply", "x", [A], [])]), ("apply", "h", [Q0], [])]
+    fresh = [("qreg", "nq", 1), ("creg", "nc", 1), ("gate", "ng", ["a"], [], [("apply", "h", [A], [])])]
+    for bad_decl, rule in ((("qreg", "q", 1), "duplicate qreg"), (("creg", "c", 1), "duplicate creg"), (("qreg", "c", 1), "qreg named like a creg"),
+                           (("gate", "old", ["a"], [], []), "duplicate gate name"), (("qreg", "big", 64), "register too large"),
+                           (("creg", "x" * 40, 1), "identifier too long"), (("qreg", "w", 62), "too many qubits in total")):
+        for kfresh in (1, 2, 3):
+            failing = fresh[:kfresh] + [("barrier", ("r", "q"))] * (kfresh % 2) + [bad_decl]
+            contn = [("qreg", "nq", 2), ("gate", "ng", ["a"], [], [("apply", "z", [A], [])]), ("apply", "ng", [Q1], []),
+                     ("apply", "x", [("q", "nq", 1)], []), ("measure", ("r", "q"), ("r", "c"))]
+            sessions.append({"chunks": [decl0, failing, contn], "bad": [1], "seed": 10, "rule": "declarations-only chunk: " + rule, "position": kfresh})
     # the failed attempt is the first thing the session sees (nothing accepted yet), once and twice in a row, in both
     # measurement modes; the continuation measures a qubit twice into the same bit, which tells the modes apart
     twice = [("qreg", "q", 2), ("creg", "c", 2), ("apply", "x", [("q", "q", 0)], []), ("measure", ("q", "q", 0), ("q", "c", 0)),
@@ -853,6 +884,17 @@ def c12_strings(rng, tier):
         adversarial.append("qreg q[%d]; qft q;" % w)
         adversarial.append("qreg q[%d]; QFT q; h q[0];" % w)
     adversarial.append("qreg a[20]; qreg b[20]; qft a, b;")
+    # controls that meet each other (not the target): same qubit twice, a register with one of its qubits, through a
+    # gate body, under if, for several stems
+    for stem, par in (("x", ""), ("z", ""), ("h", ""), ("rz", "(0.5)"), ("u1", "(0.5)"), ("u3", "(1,2,3)"), ("swap", ""), ("qft", "")):
+        tq = "q[2], q[3]" if stem == "swap" else "q[2]"
+        adversarial += [
+            "qreg q[4]; cc%s%s q[0], q[0], %s;" % (stem, par, tq),
+            "qreg q[4]; ccc%s%s q[1], q[0], q[1], %s;" % (stem, par, tq),
+            "qreg a[2]; qreg q[4]; cc%s%s a, a[1], %s;" % (stem, par, tq),
+            "qreg q[4]; creg c[1]; if (c==0) cc%s%s q[1], q[1], %s;" % (stem, par, tq),
+            "gate g x, y, z { cc%s%s x, y, z; } qreg q[4]; g q[0], q[0], q[2];" % (stem, par) if stem != "swap" else "qreg q[1];",
+        ]
     # a long run of leading c with as many operands (the prefix is stripped one letter at a time)
     for k in (10, 40, 62, 70, 100, 200, 300, 400, 1000):
         adversarial.append("qreg q[2]; %sx %s;" % ("c" * k, ", ".join(["q[0]"] * (k + 1))))
